@@ -33,7 +33,7 @@ SCALES = [(1, 1), (1, 1), (3, 2), (5, 4), (1, 2), (2, 1), (7, 8), (13, 8), (1, 4
 ERRS = {1: 'no matrix data found', 2: 'distance and duration collections have different length',
         3: "distance lengths don't match", 4: "duration lengths don't match", 5: 'time aware routing',
         6: 'duplicate profiles can be passed only', 7: 'requires all matrices to have timestamp',
-        8: 'single matrix', 101: 'all matrices should have profile set or none', 102: 'when timestamp is set',
+        8: 'single matrix', 9: 'should be square matrices of the same size', 101: 'all matrices should have profile set or none', 102: 'when timestamp is set',
         103: 'not enough routing matrices', 104: 'invalid matrix index', 105: 'amount of fleet profiles does not match'}
 
 
@@ -715,6 +715,8 @@ def prag_consistency(c):
         lens.add(len(m['dists']) if m['err'] is None else len(m['err']))
     if len(set(rsqrt(l) for l in lens)) > 1:
         return 'mixed-sizes'
+    if len(lens) > 1 or any(math.isqrt(l) ** 2 != l for l in lens):
+        return 'nonsquare-matrix-length'
     return None
 
 
@@ -932,9 +934,11 @@ MANIFEST_TEXT = ('Machine-checked proof (Coq, no axioms) over an executable rati
                  'the scientific coordinate provider: an accepted set answers (profile, from, to) with exactly the entry of the matrix '
                  'supplied for that profile (durations times the vehicle scale, distances unscaled); time-aware lookup returns the matrix '
                  'value at a (truncated) matrix timestamp, the first/last matrix outside the span, the linear interpolant with bounds in '
-                 'between and the left distance; every set failing the acceptance conditions is rejected; unreachable entries are -1; '
-                 'coordinate approximations are symmetric with zero diagonal relative to a symmetric distance function. Two deviations of '
-                 'the real code from the statement are recorded as findings with Coq witnesses (non-square lengths accepted; fractional '
+                 'between and the left distance; every inconsistent set (empty, lengths not n*n for one n, mixed timestamps, single timed '
+                 'matrix, profile indices not 0..k-1) is rejected (full clause since repair 17fc8e9 of /repo: non-square lengths were '
+                 'accepted before it, finding C16-F1, now a regression class); unreachable entries are -1; '
+                 'coordinate approximations are symmetric with zero diagonal relative to a symmetric distance function. One deviation of '
+                 'the real code from the statement is recorded as a finding with a Coq witness (fractional '
                  'query time truncated to the matrix second). The model is tied to /repo on every run by evaluating it in Coq on the '
                  'generated cases and comparing exactly with the providers built through the public constructors.')
 MANIFEST_NOTE = ('Trusted: Coq kernel + vm_compute; harness, generators, comparison; exactness of f64 on the generated dyadic data '
